@@ -116,6 +116,69 @@ def run(res, tier, seed, shard, nshards):
 
     with H.ambient((seed, shard, "C02"), res):
         H.in_sim(scen, watchdog=3000)
+    # two connections of one process, each read by its own thread: whatever the library keeps per process (buffers, caches) must not
+    # let the bytes of one connection show up in a frame of the other - every repository line of one reader as the preemption point
+    if shard == 1 % nshards:
+        two_connections_preempted(res, W, tier, seed)
+
+
+def two_connections_preempted(res, W, tier, seed):
+    from ..sim import sched, shim
+    from . import c12
+    sched.install_line_monitor(shim.PREFIX)
+    for size, api in ((8000, "recv_frame"), (300, "recv_frame"), (20000, "recv"), (5000, "recv_data")) if tier == "quick" else \
+            [(n, a) for n in (100, 300, 4095, 4096, 8000, 16384, 20000, 70000) for a in ("recv_frame", "recv", "recv_data")]:
+        pay = [bytes([0x41 + t]) * size for t in (0, 1)]
+
+        def factory(size=size, api=api, pay=pay):
+            def scen():
+                S = sched.CURRENT
+                conns = []
+                for t in (0, 1):
+                    w, conn, peer = H.connected_ws()
+                    conn.deliver(R.encode(R.BINARY, pay[t]) + R.encode(R.BINARY, b"tail%d" % t))
+                    conn.peer_close()
+                    conns.append(w)
+                got = {0: [], 1: []}
+
+                def reader(t):
+                    w = conns[t]
+                    for _ in range(2):
+                        try:
+                            if api == "recv_frame":
+                                fr = w.recv_frame()
+                                got[t].append((fr.opcode, fr.fin, bytes(fr.data)))
+                            elif api == "recv":
+                                got[t].append((R.BINARY, 1, bytes(w.recv())))
+                            else:
+                                op, data = w.recv_data()
+                                got[t].append((op, 1, bytes(data)))
+                        except BaseException as e:  # noqa
+                            if isinstance(e, sched.SimAbort):
+                                raise
+                            got[t].append(("exc", type(e).__name__, str(e)[:80]))
+                            return
+                actors = [S.spawn(reader, t, name=f"R{t}") for t in (0, 1)]
+                S.arm(line_points=True)
+                S.block(lambda: all(a.state == sched.DONE for a in actors), None, why="join")
+                S.disarm()
+                return {"got": got, "actors": actors}
+            return scen
+
+        def judge_(obs, S, size=size, api=api, pay=pay):
+            issues = []
+            for t in (0, 1):
+                exp = [(R.BINARY, 1, pay[t]), (R.BINARY, 1, b"tail%d" % t)]
+                if obs["got"][t] != exp:
+                    g = [(x[0], x[1], (x[2][:12], len(x[2]))) if x[0] != "exc" else x for x in obs["got"][t]]
+                    issues.append(("frame-mismatch", f"connection {t + 1} (read by its own thread through {api}) delivered {g}, its server sent two binary "
+                                   f"frames of {size} x {pay[t][:1]!r} and {b'tail%d' % t!r}; the other connection carried {pay[1 - t][:1]!r}", {"component": "two-connections", "api": api}))
+            case = {"gen": "two-connections-preempted", "size": size, "api": api, "decisions": list(S.decisions)[:200]}
+            return issues, case, tuple(len(obs["got"][t]) for t in (0, 1)), S.switches > 0
+
+        tag = ("two-connections", size, api)
+        c12.explore(res, factory, judge_, tag, "sweep", 400 if tier == "quick" else 5000, seed, "two_connection_schedules")
+        c12.explore(res, factory, judge_, tag, "random", 30 if tier == "quick" else 1500, seed, "two_connection_schedules")
 
 
 def header_case(res, W, rng, c, nseg):
